@@ -1309,6 +1309,10 @@ class FnAnalysis:
             if m and m3 and m.group(1) == m3.group(1):
                 s.status, s.reason = 'OK', 'dst[..n] <- src[0..n]: equal lengths'
                 return
+            m4 = re.match(r'^index\(.*, RangeTo::RangeTo\{(.*)\}\)$', sc)
+            if m and m4 and m.group(1) == m4.group(1):
+                s.status, s.reason = 'OK', 'dst[..n] <- src[..n]: equal lengths (each slice has its own bounds site)'
+                return
             m2 = re.match(r'^index\((.*), RangeFrom::RangeFrom\{MulWithOverflow\(Div\(len\((.*)\), (\d+)\), (\d+)\)\.0\}\)$', sc)
             if m and m2 and m.group(1) == 'Rem(len(%s), %s)' % (m2.group(2), m2.group(3)) and m2.group(1) == m2.group(2) and m2.group(3) == m2.group(4):
                 s.status, s.reason = 'OK', 'dst[..len %% k] <- src[(len / k) * k ..]: both have len %% k elements'
